@@ -458,7 +458,7 @@ Inductive op :=
 Definition step (o : op) (n : node) : option (list ev) :=
   let c := content n in
   match o with
-  | OWrapOff k a off len => Some (wrap_off k a off len c)
+  | OWrapOff k a off len => if (off <? 0)%Z then None else Some (wrap_off k a off len c)   (* repaired code (fixes/F101): ValueError *)
   | OWrapRe k a spans => Some (wrap_re k a spans c)
   | OInsert e w => insert_ e w c
   | ODelete i keep => delete_ i keep c
